@@ -114,7 +114,8 @@ def verify_function(ex, con, prop=None):
             if ci is not None:
                 selfv = a.get("self")
                 clsv = a.get("cls")
-                rest = {k: v for k, v in a.items() if k not in ("self", "cls")}
+                rest = {k: v for k, v in a.items() if k not in ("self", "cls", "__varargs__")}
+                pos = list(a.get("__varargs__", []))       # values for *args of the function under contract
                 kind = selfv.kind if selfv is not None else getattr(clsv, "symbase", clsv.name)
                 outs = []
                 for (s_, tag_, f_) in ex.class_attr(kind, node.name, st0, fr, self_val=selfv, cls_val=clsv):
@@ -123,7 +124,7 @@ def verify_function(ex, con, prop=None):
                     elif any(d in ("property", "cached_property") for d in ci.decorators[node.name]):
                         outs.append((s_, "ret", f_))
                     else:
-                        for (s2_, tag2_, v_) in ex.call(f_, [], rest, s_, fr):
+                        for (s2_, tag2_, v_) in ex.call(f_, pos, rest, s_, fr):
                             outs.append((s2_, "ret" if tag2_ == "ok" else tag2_, v_))
             else:
                 outs = [(s2_, "ret" if tag2_ == "ok" else tag2_, v_) for (s2_, tag2_, v_) in
